@@ -385,6 +385,11 @@ hwloc_calc_parse_range(const char *_string,
       amount = -1;
     } else {
       /* X-Y */
+      if (last < first) {
+	if (verbose >= 0)
+	  fprintf(stderr, "invalid range `%s' with last index lower than first\n", string);
+	return -1;
+      }
       amount = last-first+1;
     }
 
@@ -479,7 +484,8 @@ hwloc_calc_append_object_range(struct hwloc_calc_location_context_s *lcontext,
 
   width = hwloc_calc_get_nbobjs_inside_sets_by_depth(lcontext, rootcpuset, rootnodeset, level);
   if (amount == -1)
-    amount = (width-first+step-1)/step;
+    /* all objects starting from first, if any */
+    amount = (unsigned) first >= width ? 0 : (width-first+step-1)/step;
 
   for(i=first, j=0; j<(unsigned)amount; i+=step, j++) {
     if (wrap && i>=width)
